@@ -1,22 +1,31 @@
 (* Props/C07.v -- property C07: incremental updates -- latest revision wins, history preserved.
-   Statements only; proofs live in Proofs/{XrefMergeProofs,XrefLoadProofs,IncrementalProofs,C07Witness}.v.
+   Statements only; proofs live in Proofs/{XrefMergeProofs,XrefLoadProofs,IncrementalProofs,C07Witness}.v (layout level)
+   and Proofs/C07Bytes{,Table,Stream,History,Example}.v (byte level).
 
-   The full file-level statement is the proposition C07_full of Proofs/C07Full.v (a Definition over the
-   byte-level reference writer and loader, which do not exist in Coq yet).  What is proved here is
-   about the models Model/XrefMerge.v (Xref::merge, the Prev loop, object loading, object-stream
-   expansion of src/reader.rs + src/xref.rs as of commits f28e935/44beb46) and Model/Incremental.v
-   (src/incremental_document.rs + IncrementalDocument::save_internal as of bb85a17), both tied to the
-   crate by ./check C07 (merged tables, loaded objects, save output byte for byte).
+   Two levels.
+   BYTE LEVEL (part C): for histories written by lopdf itself -- Document::save followed by any number of
+     IncrementalDocument::save, both cross-reference formats -- the statements are about the real byte-level loader
+     model Model/Loader.v (c01; tied to the crate by ./check C01 and C07) and the writer models Model/Save.v /
+     Model/Incremental.v: load (inc_save ..) = overlay, and the result can be updated again (induction over the saves).
+   LAYOUT LEVEL (parts A, B4-B5): for files of ANY producer (hybrid-reference files, object streams, free entries, Prev
+     cycles) parsing is abstracted by a layout -- what parser::xref_and_trailer / parser::indirect_object /
+     ObjectStream::new find at which offset -- and the statements are about Model/XrefMerge.v (Xref::merge, the Prev
+     loop with merge_xref_stream, object loading, object-stream expansion of src/reader.rs + src/xref.rs); the layout is
+     tied to the crate by the differential run of ./check C07 (merged tables, loaded objects, every history prefix).
 
    Vocabulary
-     layout        what parser::xref_and_trailer / parser::indirect_object / ObjectStream::new find at which
-                   offset of a file (sections with their RAW entries, objects with the id written there)
-     first_def     the entry of the newest table in a list that has one for the number
-     chain_layout  the sections reachable from startxref form a Prev chain without cycle and the newest
-                   trailer has no XRefStm key (that excludes hybrid files: open finding hybrid-update)
-     KnownClass    the three open findings, decided on the input history (Spec/History.v)            *)
+     layout        sections with their RAW entries at their offsets, objects with the id written there
+     first_def     the entry of the first table in a list that has one for the number
+     chain_layout  the sections reachable from startxref form a Prev chain without cycle; hybrid-reference sections
+                   (XRefStm) are allowed anywhere in the chain
+     KnownClass    the open finding freed-comes-back, decided on the input history (Spec/History.v)
+     good_file / lopdf_history   Proofs/C07Bytes.v / C07BytesHistory.v: the invariant of a file written by lopdf (a chain of
+                   k well-formed revisions whose merged table maps each number to the exact offset of the object in the
+                   newest revision defining it) and the inductive family of such files                             *)
 From LV Require Import Base.Bytes Base.Sx Model.Obj Model.Save Model.XrefMerge Model.Incremental Spec.History
   Proofs.XrefMergeProofs Proofs.XrefLoadProofs Proofs.IncrementalProofs Proofs.C07Full Proofs.C07Witness.
+From LV Require Model.Loader Model.Xref Spec.SaveSpec Proofs.SaveProofs Proofs.LoadProofsXref Proofs.FilterProofsDict Proofs.StrictRevisionProofs Proofs.StrictIncrementalProofs Proofs.C07Bytes Proofs.C07BytesTable
+  Proofs.C07BytesStream Proofs.C07BytesHistory Proofs.C07BytesExample.
 
 Local Open Scope N_scope.
 
@@ -30,17 +39,21 @@ Theorem C07_merge_chain_latest : forall (revs : list xref) (x0 : xref) (k : N),
   xget (xr_entries (fold_left xmerge revs x0)) k = first_def (map xr_entries (x0 :: revs)) k.
 Proof. exact merge_chain_latest. Qed.
 
-(* (A2) On every file whose sections form a Prev chain the reader computes exactly that merge: the table it
-   ends with gives each number the entry of the newest section having one; trailer, xref_start and table
-   type are those of the newest section.  (Size/max_id fit u32 -- the code returns InvalidXref otherwise.) *)
+(* (A2) On every file whose sections form a Prev chain -- hybrid-reference sections included -- the reader computes
+   exactly that merge: the table it ends with gives each number the entry of the first table that has one in the
+   order  newest section, the cross-reference stream its trailer names by XRefStm, the section named by Prev, ITS
+   cross-reference stream, ... (ISO 32000-1 7.5.8.4; reader.rs as repaired: merge_xref_stream); trailer, xref_start and
+   table type are those of the newest section.  (Size/max_id fit u32 -- the code returns InvalidXref otherwise.  The
+   XRefStm of a file WITHOUT Prev is not read by the code: head_xref / chain_tabs say so.)
+   Partial: layout level.  The byte-level counterpart for files written by lopdf is (C2)/(C3). *)
 Theorem C07_read_chain_partial : forall L s0 c fuel,
   chain_layout L s0 c -> (length c <= fuel)%nat ->
-  (xt_max_id (xr_entries (fold_left xmerge (map (fun ps => sec_xref (snd ps)) c) (sec_xref s0))) + 1 < 4294967296) ->
+  (xt_max_id (xr_entries (fold_left xmerge (map (fun ps => sec_full L (snd ps)) c) (head_xref L s0 c))) + 1 < 4294967296) ->
   exists m, read_xref fuel L = LOk m /\
-            m_trailer m = dict_swap_remove (s_trailer s0) K_Prev /\
+            m_trailer m = head_trailer s0 c /\
             m_start m = Z.to_N (l_startxref L) /\
             xr_stream (m_xref m) = s_stream s0 /\
-            forall k, xget (xr_entries (m_xref m)) k = first_def (chain_tabs s0 c) k.
+            forall k, xget (xr_entries (m_xref m)) k = first_def (chain_tabs L s0 c) k.
 Proof. exact read_xref_chain. Qed.
 
 (* (A3) The loader always terminates (cycles of Prev are cut by `already_seen`) within the stated fuel,
@@ -73,6 +86,15 @@ Theorem C07_compressed_entry_names_container : forall L enc t x c i o b1 ms b2,
   lookup (load_objects L enc t) x = Some o.
 Proof. exact load_compressed_named. Qed.
 
+(* (A5') One generation per object number (reader.rs as repaired: a member of an object stream is added only when no
+   object of its NUMBER is present): when the table gives an object of number n -- read through a Normal entry, or a
+   member of the object stream the table names --, no other generation of n comes out of any object stream.
+   This closes the former finding objstm-stale-generation. *)
+Theorem C07_one_generation_per_number : forall L enc t n g o,
+  lookup (after_named L enc t) (n, g) = Some o ->
+  forall g', lookup (load_objects L enc t) (n, g') = lookup (after_named L enc t) (n, g').
+Proof. exact load_one_generation. Qed.
+
 (* (A6) A FREE entry is no entry: a section that only frees k leaves no trace in the table it contributes,
    so by (A1) an older in-use entry for k survives the merge.  This is the root of the open finding
    freed-comes-back; (A7) shows it on a concrete history. *)
@@ -81,26 +103,34 @@ Theorem C07_free_entry_leaves_no_trace : forall stream raw k,
   xget (parse_entries stream raw) k = None.
 Proof. exact only_free_no_entry. Qed.
 
-(* (A7) The full claim is REFUTED on the unrepaired parts of the reader; each witness is a history of the
-   known class, its layout as the reference writer produces it, and the deviation of the loaded objects.
-   The same cases are replayed on the real crate by ./check C07 (known_findings.json). *)
+(* (A7) The full claim is REFUTED on the unrepaired part of the reader: a history of the known class, its layout as
+   the reference writer produces it, and the deviation of the loaded objects.  The same case is replayed on the real
+   crate by ./check C07 (known_findings.json). *)
 Theorem C07_freed_refuted :
   KnownClass h_freed = true /\
   lookup (latest_wins (map forget h_freed)) (2, 0) = None /\
   exists m, loaded_user L_freed = Some m /\ lookup m (2, 0) = Some (OInt 5) /\ m <> latest_wins (map forget h_freed).
 Proof. exact freed_refuted. Qed.
 
-Theorem C07_hybrid_refuted :
-  KnownClass h_hybrid = true /\
+(* (A8) The witnesses of the two REPAIRED findings now load to exactly latest_wins and are outside KnownClass:
+   hybrid-update (an existing object updated inside an object stream of a hybrid-reference revision) and
+   objstm-stale-generation (an object-stream member redefined with a non-zero generation). *)
+Theorem C07_hybrid_fixed :
+  KnownClass h_hybrid = false /\
   lookup (latest_wins (map forget h_hybrid)) (2, 0) = Some (OInt 7) /\
-  exists m, loaded_user L_hybrid = Some m /\ lookup m (2, 0) = Some (OInt 5).
-Proof. exact hybrid_refuted. Qed.
+  loaded_user L_hybrid = Some (latest_wins (map forget h_hybrid)).
+Proof. exact hybrid_fixed. Qed.
 
-Theorem C07_stale_generation_refuted :
-  KnownClass h_stale = true /\
+Theorem C07_stale_generation_fixed :
+  KnownClass h_stale = false /\
   lookup (latest_wins (map forget h_stale)) (2, 0) = None /\
-  exists m, loaded_user L_stale = Some m /\ lookup m (2, 1) = Some (OInt 6) /\ lookup m (2, 0) = Some (OInt 5).
-Proof. exact stale_generation_refuted. Qed.
+  loaded_user L_stale = Some (latest_wins (map forget h_stale)).
+Proof. exact stale_generation_fixed. Qed.
+
+(* the hybrid witness meets the hypotheses of (A2), with a cross-reference stream that IS read *)
+Theorem C07_example_hybrid_chain :
+  exists s0 s1 p1, chain_layout L_hybrid s0 [(p1, s1)] /\ stm_target L_hybrid (s_trailer s0) <> None.
+Proof. exact hybrid_is_chain_layout. Qed.
 
 (* non-vacuity: a three-revision history outside the known class (table and stream sections, an object
    updated from one object stream into another, one moved out of an object stream) loads to exactly
@@ -168,40 +198,189 @@ Theorem C07_inc_save_prev_link : forall prev_bytes prev edits,
                            dict_get t K_Prev = Some (OInt (Z.of_N (xd_start prev))).
 Proof. exact inc_save_prev_link. Qed.
 
-(* (B4) inc_save_reload, at the level of the cross-reference table (partial: the byte-level round trip of the
-   appended section and objects is C01's/C02's, not available yet; it enters as the layout): appending a
-   section whose Prev is the old startxref to a chain file gives a file on which the reader's table has,
-   for every number, the NEW entry if the new section has one and otherwise EXACTLY the entry it found
-   before the update; trailer and xref_start are the new section's. *)
+(* (B4) inc_save_reload at the level of the cross-reference table, for a file of ANY producer (layout level; the
+   byte-level statement for files written by lopdf is (C2)): appending a section whose Prev is the old startxref to a
+   chain file gives a file on which the reader's table has, for every number, the NEW entry (the new section's own
+   table, then the cross-reference stream its trailer names) if there is one and otherwise EXACTLY the entry it found
+   before the update; trailer and xref_start are the new section's.  (Hypothesis on a single old section: its XRefStm is
+   read only once it is reached through Prev.) *)
 Theorem C07_reload_after_append_partial : forall L s0 c off sec objs len m fuel,
   chain_layout L s0 c ->
   read_xref fuel L = LOk m -> (length c <= fuel)%nat ->
   (l_buflen L < off <= len)%Z ->
   (forall p, In p (l_startxref L :: map fst c) -> (p <= l_buflen L)%Z) ->
   dict_get (s_trailer sec) K_Prev = Some (OInt (l_startxref L)) ->
-  dict_get (dict_swap_remove (s_trailer sec) K_Prev) K_XRefStm = None ->
-  (xt_max_id (xr_entries (fold_left xmerge (map (fun ps => sec_xref (snd ps)) ((l_startxref L, s0) :: c)) (sec_xref sec))) + 1
-     < 4294967296) ->
+  FilterProofsDict.dict_wf (s_trailer sec) -> stm_ok (extend_layout L off sec objs len) (s_trailer sec) ->
+  (c = [] -> stm_target L (s_trailer s0) = None) ->
+  (xt_max_id (xr_entries (fold_left xmerge (map (fun ps => sec_full (extend_layout L off sec objs len) (snd ps)) ((l_startxref L, s0) :: c))
+                                    (sec_full (extend_layout L off sec objs len) sec))) + 1 < 4294967296) ->
   exists m', read_xref (S fuel) (extend_layout L off sec objs len) = LOk m' /\
-             m_trailer m' = dict_swap_remove (s_trailer sec) K_Prev /\
+             m_trailer m' = dict_swap_remove (dict_swap_remove (s_trailer sec) K_Prev) K_XRefStm /\
              m_start m' = Z.to_N off /\
              forall k, xget (xr_entries (m_xref m')) k =
-                       match xget (parse_entries (s_stream sec) (s_raw sec)) k with
+                       match first_def (sec_tabs (extend_layout L off sec objs len) sec) k with
                        | Some e => Some e
                        | None => xget (xr_entries (m_xref m)) k
                        end.
 Proof. exact reload_after_append. Qed.
 
-(* (B5) re-loadability for a further update, by induction over the history of saves: the file after the
-   update meets the hypotheses of (A2)/(B4) again, with a chain one section longer. *)
+(* (B5) re-loadability for a further update, by induction over the history of saves (layout level): the file after
+   the update meets the hypotheses of (A2)/(B4) again, with a chain one section longer. *)
 Theorem C07_update_again_partial : forall L s0 c off sec objs len,
   chain_layout L s0 c ->
   (l_buflen L < off <= len)%Z ->
   (forall p, In p (l_startxref L :: map fst c) -> (p <= l_buflen L)%Z) ->
   dict_get (s_trailer sec) K_Prev = Some (OInt (l_startxref L)) ->
-  dict_get (dict_swap_remove (s_trailer sec) K_Prev) K_XRefStm = None ->
+  FilterProofsDict.dict_wf (s_trailer sec) -> stm_ok (extend_layout L off sec objs len) (s_trailer sec) ->
   chain_layout (extend_layout L off sec objs len) sec ((l_startxref L, s0) :: c).
 Proof. exact extend_chain_layout. Qed.
+
+(* ---------------------------------------------------------------------------------------------------------
+   C. Byte level: files written by lopdf itself (Model/Loader.v is the reader, nothing is abstracted)
+   --------------------------------------------------------------------------------------------------------- *)
+Import C07Bytes C07BytesTable C07BytesStream C07BytesHistory C07BytesExample.
+
+(* (C1) A file that satisfies the invariant loads, to exactly the document the invariant describes.  good_file F v m xs
+   xt entries t objs: F begins with the header and binary-mark lines of v and m, ends with startxref xs %%EOF; reading
+   the section at xs and following Prev (strictly decreasing offsets) gives the merged table [entries] and the trailer t
+   -- also when any bytes are appended to F --; entries are sorted Normal entries, and objs are exactly the objects
+   parser::indirect_object finds at their offsets, in key order. *)
+Theorem C07_good_file_loads : forall F v m xs xt entries t objs,
+  good_file F v m xs xt entries t objs -> Loader.load F = Loader.LOk (loaded v m entries t objs) xt.
+Proof. exact good_file_loads. Qed.
+
+(* (C2) inc_save_reload, byte level, BOTH cross-reference formats: a savable document d is saved, loaded
+   (C01_full: the loader returns [reloaded fmt d]), an IncrementalDocument is created from those bytes and that
+   document, edited by ANY sequence of the modelled operations, and saved.  The save succeeds and loading its output
+   gives the overlay of the new objects over the loaded ones (stream format: plus the new cross-reference stream object
+   itself, which the loader keeps as an ordinary object, as it does for a plain save).
+   Hypotheses: the domain of C01 for d (no XRefStm key in its trailer: the update would inherit it); the new objects
+   are writable (rev_dom: numbers increasing and <= max_id, top_wf, none of the types the writer skips; nesting below the
+   reader's limit: open finding C01-deep-nesting); the file stays below 4 GiB (u32 offsets); every new identifier is
+   an identifier of the loaded document or carries a new NUMBER (C07_generation_hypothesis_needed shows why). *)
+Theorem C07_inc_save_reload : forall fmt d edits,
+  SaveSpec.savable d -> SaveSpec.known_deep d = false -> SaveSpec.small_file fmt d -> dict_get (d_trailer d) K_XRefStm = None ->
+  let F := so_bytes (save fmt d) in
+  let prev := {| xd_doc := SaveSpec.reloaded fmt d; xd_start := Save.blen (SaveProofs.body_of d); xd_type := fmt |} in
+  let s := fold_left apply_edit edits (create_from F prev) in
+  let nd := xd_doc (i_new s) in
+  StrictRevisionProofs.rev_dom nd -> SaveSpec.known_deep nd = false -> Save.blen (io_bytes (inc_save s)) < u32_mod ->
+  Forall (fun io : oid * obj => In (fst io) (map fst (d_objects (SaveSpec.reloaded fmt d))) \/
+                                ~ In (fst (fst io)) (SaveProofs.obj_numbers (d_objects (SaveSpec.reloaded fmt d)))) (new_objects s) ->
+  io_status (inc_save s) = IncOk /\
+  exists v m t mx,
+    Loader.load (io_bytes (inc_save s)) =
+    Loader.LOk {| d_version := v; d_binary_mark := m; d_trailer := t;
+                  d_objects := step_objs fmt (d_objects (SaveSpec.reloaded fmt d)) nd (Save.blen (F ++ StrictIncrementalProofs.inc_lines nd));
+                  d_max_id := mx |} (SaveSpec.xtype_of fmt).
+Proof. exact inc_save_reload. Qed.
+
+(* the table format with every field of the loaded document spelled out *)
+Theorem C07_inc_save_reload_table : forall d edits,
+  SaveSpec.savable d -> SaveSpec.known_deep d = false -> SaveSpec.small_file XTable d -> dict_get (d_trailer d) K_XRefStm = None ->
+  let F := so_bytes (save XTable d) in
+  let prev := {| xd_doc := SaveSpec.reloaded XTable d; xd_start := Save.blen (SaveProofs.body_of d); xd_type := XTable |} in
+  let s := fold_left apply_edit edits (create_from F prev) in
+  let nd := xd_doc (i_new s) in
+  StrictRevisionProofs.rev_dom nd -> SaveSpec.known_deep nd = false -> Save.blen (io_bytes (inc_save s)) < u32_mod ->
+  Forall (fun io : oid * obj => In (fst io) (map fst (d_objects (SaveSpec.written d))) \/
+                                ~ In (fst (fst io)) (SaveProofs.obj_numbers (d_objects (SaveSpec.written d)))) (new_objects s) ->
+  io_status (inc_save s) = IncOk /\
+  Loader.load (io_bytes (inc_save s)) =
+  Loader.LOk {| d_version := d_version d; d_binary_mark := d_binary_mark d; d_trailer := new_trailer nd;
+                d_objects := overlay (SaveSpec.norm_objects (d_objects (SaveSpec.written d))) (SaveSpec.norm_objects (new_objects s));
+                d_max_id := xmap_max (table_after d nd) |} Xref.XTTable.
+Proof. exact inc_save_reload_table. Qed.
+
+(* (C3) "... and the result can be loaded and updated again", by induction over the history of saves.
+   lopdf_history F xs fmt objs: F is a file saved by Document::save (either format) followed by any number of
+   IncrementalDocument saves, each made from the previous bytes and from what load returned for them.  Every such
+   file satisfies the invariant of (C1) ... *)
+Theorem C07_history_invariant : forall F xs fmt objs,
+  lopdf_history F xs fmt objs -> exists v m entries t, good_file F v m xs (SaveSpec.xtype_of fmt) entries t objs.
+Proof. exact history_good. Qed.
+
+(* ... hence loads, to the fold of the overlays, and get_xref_start finds the newest section ... *)
+Theorem C07_history_loads : forall F xs fmt objs,
+  lopdf_history F xs fmt objs ->
+  Loader.get_xref_start F = Some xs /\
+  exists v m t mx, Loader.load F = Loader.LOk {| d_version := v; d_binary_mark := m; d_trailer := t; d_objects := objs; d_max_id := mx |}
+                                              (SaveSpec.xtype_of fmt).
+Proof. exact history_loads. Qed.
+
+(* ... and ANY further update made through the modelled API from what load returned succeeds and gives a file of the
+   family again: Prev, XRefStm, Encrypt, binary mark and max_id need no hypothesis (they follow from create_from and the
+   edits); what remains is the domain of the new objects, the 4 GiB bound and the identifier condition. *)
+Theorem C07_history_update_again : forall F xs fmt objs pd edits,
+  lopdf_history F xs fmt objs ->
+  Loader.load F = Loader.LOk pd (SaveSpec.xtype_of fmt) ->
+  let s := fold_left apply_edit edits (create_from F {| xd_doc := pd; xd_start := xs; xd_type := fmt |}) in
+  let nd := xd_doc (i_new s) in
+  StrictRevisionProofs.rev_dom nd -> SaveSpec.known_deep nd = false ->
+  Save.blen (io_bytes (inc_save s)) < u32_mod ->
+  Forall (fun io : oid * obj => In (fst io) (map fst (d_objects pd)) \/ ~ In (fst (fst io)) (SaveProofs.obj_numbers (d_objects pd))) (d_objects nd) ->
+  io_status (inc_save s) = IncOk /\
+  lopdf_history (io_bytes (inc_save s)) (io_start (inc_save s)) fmt (step_objs fmt objs nd (Save.blen (F ++ StrictIncrementalProofs.inc_lines nd))).
+Proof. exact history_edit_step. Qed.
+
+(* (C4) one step for a file of EITHER previous format satisfying the invariant (mixed chains), table / stream *)
+Theorem C07_inc_table_step : forall F v m xs xt entries t objs s,
+  good_file F v m xs xt entries t objs ->
+  i_bytes s = F -> xd_type (i_prev s) = XTable ->
+  let nd := xd_doc (i_new s) in
+  upd_dom xs nd ->
+  Save.blen (io_bytes (inc_save s)) < u32_mod ->
+  Forall (gen_ok entries) (d_objects nd) ->
+  io_status (inc_save s) = IncOk /\
+  good_file (io_bytes (inc_save s)) v m (io_start (inc_save s)) Xref.XTTable
+            (fold_left xins (LoadProofsXref.conv_map (StrictRevisionProofs.rev_xmap nd (Save.blen (F ++ StrictIncrementalProofs.inc_lines nd)))) entries)
+            (new_trailer nd)
+            (overlay objs (SaveSpec.norm_objects (d_objects nd))).
+Proof. exact inc_table_good. Qed.
+
+Theorem C07_inc_stream_step : forall F v m xs xt entries t objs s,
+  good_file F v m xs xt entries t objs ->
+  i_bytes s = F -> xd_type (i_prev s) = XStream ->
+  let nd := xd_doc (i_new s) in
+  let pos0 := Save.blen (F ++ StrictIncrementalProofs.inc_lines nd) in
+  upd_dom xs nd ->
+  Save.blen (io_bytes (inc_save s)) < u32_mod ->
+  Forall (gen_ok entries) (d_objects nd) ->
+  Forall (fun ke => fst ke <= d_max_id nd) entries ->
+  io_status (inc_save s) = IncOk /\
+  good_file (io_bytes (inc_save s)) v m (io_start (inc_save s)) Xref.XTStream
+            (fold_left xins (LoadProofsXref.conv_map (StrictRevisionProofs.str_map nd pos0)) entries)
+            (str_new_trailer nd pos0)
+            (overlay objs (SaveSpec.norm_objects (d_objects nd)) ++ [xso nd pos0]).
+Proof. exact inc_stream_good. Qed.
+
+(* (C5) non-vacuity and necessity.  A concrete document, saved, loaded, object 1 replaced and object 3 added, meets
+   every hypothesis of (C2) and loads to the stated document; a second update of that file is a history again; the
+   same in the stream format; and an update that re-uses number 2 under ANOTHER generation shows that the identifier
+   hypothesis cannot be dropped: the loader (one table entry per number: latest revision wins) returns (2,1) only,
+   [overlay], keyed by (number, generation), keeps (2,0) as well. *)
+Theorem C07_example_reload :
+  SaveSpec.savable ex_d /\ SaveSpec.known_deep ex_d = false /\ SaveSpec.small_file XTable ex_d /\ dict_get (d_trailer ex_d) K_XRefStm = None /\
+  StrictRevisionProofs.rev_dom ex_nd /\ SaveSpec.known_deep ex_nd = false /\ Save.blen (io_bytes (inc_save ex_s)) < u32_mod /\
+  Forall (fun io : oid * obj => In (fst io) (map fst (d_objects (SaveSpec.written ex_d))) \/
+                                ~ In (fst (fst io)) (SaveProofs.obj_numbers (d_objects (SaveSpec.written ex_d)))) (new_objects ex_s) /\
+  io_status (inc_save ex_s) = IncOk /\
+  Loader.load (io_bytes (inc_save ex_s)) = Loader.LOk ex_result Xref.XTTable.
+Proof. exact example_reload. Qed.
+
+Theorem C07_example_second_update :
+  lopdf_history (io_bytes (inc_save ex_s2)) (io_start (inc_save ex_s2)) XTable ex_result2 /\
+  Loader.load (io_bytes (inc_save ex_s2)) =
+  Loader.LOk {| d_version := bs "1.5"; d_binary_mark := [xbb; xad; xc0; xde];
+                d_trailer := [(K_Root, ORef 1 0); (Save.K_Size, OInt 5)]; d_objects := ex_result2; d_max_id := 4 |} Xref.XTTable.
+Proof. exact example_second_update. Qed.
+
+Theorem C07_generation_hypothesis_needed :
+  (exists d', Loader.load (io_bytes (inc_save ex_sg)) = Loader.LOk d' Xref.XTTable /\
+              d_objects d' = [((1, 0), ODict [(K_Type, OName (bs "Catalog"))]); ((2, 1), OInt 8)]) /\
+  overlay (d_objects (SaveSpec.reloaded XTable ex_d)) (SaveSpec.norm_objects (new_objects ex_sg)) =
+    [((1, 0), ODict [(K_Type, OName (bs "Catalog"))]); ((2, 0), OInt 7); ((2, 1), OInt 8)].
+Proof. exact gen_hypothesis_needed. Qed.
 
 Print Assumptions C07_merge_chain_latest.
 Print Assumptions C07_read_chain_partial.
@@ -211,8 +390,10 @@ Print Assumptions C07_normal_entry_wins.
 Print Assumptions C07_compressed_entry_names_container.
 Print Assumptions C07_free_entry_leaves_no_trace.
 Print Assumptions C07_freed_refuted.
-Print Assumptions C07_hybrid_refuted.
-Print Assumptions C07_stale_generation_refuted.
+Print Assumptions C07_hybrid_fixed.
+Print Assumptions C07_stale_generation_fixed.
+Print Assumptions C07_example_hybrid_chain.
+Print Assumptions C07_one_generation_per_number.
 Print Assumptions C07_example_latest_wins.
 Print Assumptions C07_example_chain.
 Print Assumptions C07_inc_save_prefix.
@@ -222,3 +403,14 @@ Print Assumptions C07_table_trailer_keeps_prev.
 Print Assumptions C07_inc_save_prev_link.
 Print Assumptions C07_reload_after_append_partial.
 Print Assumptions C07_update_again_partial.
+Print Assumptions C07_good_file_loads.
+Print Assumptions C07_inc_save_reload.
+Print Assumptions C07_inc_save_reload_table.
+Print Assumptions C07_history_invariant.
+Print Assumptions C07_history_loads.
+Print Assumptions C07_history_update_again.
+Print Assumptions C07_inc_table_step.
+Print Assumptions C07_inc_stream_step.
+Print Assumptions C07_example_reload.
+Print Assumptions C07_example_second_update.
+Print Assumptions C07_generation_hypothesis_needed.
